@@ -46,7 +46,10 @@ def run(ctx):
             traces_ok = c.get("traces_recorded", 0)
     elif not ctx.violations:
         raise ToolError("replay recorded no trace")
+    import endpoint_job
+    ep = endpoint_job.run_endpoint(ctx)
     return ctx.finish("model_checking", {
+        "endpoint_composition": ep,
         "states": s["distinct"], "transitions": s["states"],
         "traces_validated_against_impl": c.get("tlc_scenarios_replayed", 0) + traces_ok,
         "replayed_behaviours": c.get("tlc_scenarios_replayed", 0), "recorded_traces": traces_ok, "events_validated": events if traces_ok else 0,
